@@ -284,12 +284,44 @@ def main(check: Check, argv: list[str]) -> int:
     trigger_report: list[dict[str, Any]] = []
     check.setup_worker()
 
-    # 1+2: triggers
-    for e in known:
-        spec = e.get('trigger_spec')
-        if spec is None:
-            continue
-        res = _safe_run(check, spec)
+    # 1+2: triggers (on forked workers: a trigger that hangs or kills its
+    # process is then a result, not the end of the check)
+    trig = [(e, e['trigger_spec']) for e in known
+            if e.get('trigger_spec') is not None]
+    trig_res: dict[int, dict[str, Any]] = {}
+    if args.serial:
+        for k, (_, spec) in enumerate(trig):
+            trig_res[k] = _safe_run(check, spec)
+    else:
+        pending = list(range(len(trig)))
+        for _ in range(4):
+            if not pending:
+                break
+            batch = [trig[k][1] for k in pending]
+            got: set[int] = set()
+            for rec in farm(check, batch, 900.0, 1800.0):
+                if 'hung' in rec:
+                    if rec.get('hung') is None:
+                        continue
+                    v = check.on_worker_death(rec) if rec.get('spec') \
+                        else None
+                    trig_res[pending[rec['hung']]] = {
+                        'violations': [v] if v is not None else [],
+                        'harness_error': None if v is not None else
+                        'trigger killed its worker (status %r)'
+                        % rec.get('status')}
+                    got.add(rec['hung'])
+                elif 'skipped' in rec:
+                    continue
+                else:
+                    trig_res[pending[rec['idx']]] = rec
+                    got.add(rec['idx'])
+            pending = [k for j, k in enumerate(pending) if j not in got]
+        for k in pending:
+            trig_res[k] = {'violations': [], 'harness_error':
+                           'trigger was not run (worker lost)'}
+    for k, (e, spec) in enumerate(trig):
+        res = trig_res[k]
         mechs = {v['mech'] for v in res['violations']}
         trigger_report.append({'mechanism': e['mechanism'],
                                'status': e['status'],
